@@ -12,15 +12,16 @@ const whyRing = "a ring walk that leaves on cursor != start visits one node: are
 
 func init() {
 	register(&propDef{
-		id: "C01",
+		id:          "C01",
 		explanation: "Decides structural clauses of C01: (table) the predicate deciding whether a closed edge bounds the solution (isContributingClosed) equals, on every cell of the code-derived partition of (fillRule, clipType, polytype, windCount, windCount2), the set-theoretic table the property states; (open-guard) the boundary test of intersectEdges' open branch is the same own-set test; (ring) every ring walk over OutPt/OutPt2/Vertex lists leaves on cursor==start, i.e. visits the whole ring; (order) the sort comparators implement the sweep order (minima bottom-up, intersections bottom-up then left to right); (mirror) intersectEdges decides and updates winding state under Negative exactly as under Positive on the negated state; (table2) two crossing same-set boundary edges start a polygon exactly where the boolean table has a boundary; (grow/split) records split off during clean-up are visited, and a ring split by a horizontal join is relabelled before ownership of the entry point is tested; (live) no call to a sweep/repair mechanism sits in a constant-dead block. Also: (wind) the winding-count representation (windCount = larger-magnitude winding of the two regions an edge separates, R - L = windDx, windCount2 = the other set's winding there) is preserved by setWindCountForClosedPathEdge and by both crossing cases of intersectEdges on every cell of a first-principles region model; (ael.join) a new left bound is never spliced in after the left half of a joined pair; (join.advance) an edge that moves to its next segment is tested for a join on every exit; (merged-owner) a record emptied by a merge gets an owner in flat mode too; (horz-roles) duplicateOp's flag is true exactly for the left-to-right segment of a horizontal join; (area-sign) every signed-area function uses the same (previous minus current) shoelace convention. Does NOT decide the sweep's geometry: edge ordering, intersection rounding, winding update arithmetic, join/split topology.",
-		notDecided: []string{"active-edge ordering (isValidAelOrder)", "intersection detection and rounding", "horizontal processing, joins and splits", "doSplitOp's area condition (no in-repo oracle)"},
+		notDecided:  []string{"active-edge ordering (isValidAelOrder)", "intersection detection and rounding", "horizontal processing, joins and splits", "doSplitOp's area condition (no in-repo oracle)"},
 		rules: []func(*Ctx){
 			ruleAelJoinSplice("C01.ael.join"),
 			ruleHorzJoinRoles("C01.horz-roles"),
 			ruleSplitOnAdvance("C01.join.advance"),
 			ruleMergedOwner("C01.merged-owner"),
 			ruleEveryPathEntersRing("C01.all-paths"),
+			ruleJoinMirror("C01.join.mirror"),
 			ruleShoelaceConvention("C01.area-sign", []string{"areaTriangle", "areaOP", "Area64", "AreaD"}, 3),
 			ruleWindingInvariant("C01.wind"),
 			ruleContribClosed("C01.table"),
@@ -35,9 +36,9 @@ func init() {
 		},
 	})
 	register(&propDef{
-		id: "C09",
+		id:          "C09",
 		explanation: "Decides structural clauses of C09: (table) isContributingOpen equals the property's coverage table (Intersection: inside clip; Union: outside both; Difference: outside clip) on every cell of (fillRule, clipType, windCount, windCount2); (guard) an open edge is cut at a closed edge exactly when that edge bounds its own set; (skip) winding scans neither count nor are changed by open edges; (route) open records reach only the open solution; (horz) an open path's terminal horizontal consults the range test before intersecting a further edge. Also: (skip/search) the search for the nearest closed edge of the same set passes over open edges; (prev-hot) getPrevHotEdge returns only an edge it found hot and not open; (scratch) each open piece is built in a new variable (typestate). Does NOT decide cut positions or that pieces are sub-polylines.",
-		notDecided: []string{"cut positions (intersection rounding)", "sub-polyline-ness of the pieces", "horizontal open edges in doHorizontal", "Xor for open paths (the property does not constrain it)"},
+		notDecided:  []string{"cut positions (intersection rounding)", "sub-polyline-ness of the pieces", "horizontal open edges in doHorizontal", "Xor for open paths (the property does not constrain it)"},
 		rules: []func(*Ctx){
 			ruleOpenCutCandidates("C09.cut-at"),
 			rulePrevHotEdge("C09.prev-hot"),
@@ -53,9 +54,9 @@ func init() {
 		},
 	})
 	register(&propDef{
-		id: "C19",
+		id:          "C19",
 		explanation: "Decides structural clauses of C19: (ident) the edge-level forms of the four set identities hold inside the extracted contribution table for every fill rule and every cell, with no external oracle (Union xor Intersection on boundary edges; Xor = their union; Difference = Union on subject edges and Intersection on clip edges); (wrap) each named convenience wrapper passes the clip-type constant its name states and subject, clip, fill rule in that order, and the generic entry adds subject as Subject and clip as Clip. Does NOT decide the area bounds (rounding band times edge length).",
-		notDecided: []string{"area discrepancy bounds", "agreement of the sweep's output with the contribution decisions"},
+		notDecided:  []string{"area discrepancy bounds", "agreement of the sweep's output with the contribution decisions"},
 		rules: []func(*Ctx){
 			ruleContribIdent("C19.ident"),
 			ruleIntersectTable("C19.table2"),
@@ -66,9 +67,9 @@ func init() {
 
 func init() {
 	register(&propDef{
-		id: "C18",
+		id:          "C18",
 		explanation: "Decides C18 by an effect argument over the whole package: (globals) no package-level variable is stored to or has its address taken outside init, and none carries pointers; (shared) no write effect (store, append, copy, sort, map update) can target memory reachable from a caller-supplied input slice, under an inclusion-based points-to analysis rooted at every exported function's parameters; (local) no goroutine, channel, sync, unsafe, reflect, runtime, time or rand use exists in the package or in the reachable part of govalues/decimal. Together: two calls on distinct objects share only read-only memory, so they cannot race or influence each other. Trusted: the Go standard library, and that caller-supplied callbacks/scale functions are the caller's responsibility.",
-		notDecided: []string{"behaviour of caller-supplied functions (DeltaCallbackFunc, *WithScaleFunc hooks, InflateOption)", "thread safety inside the standard library (fmt, sort, slices, math)"},
+		notDecided:  []string{"behaviour of caller-supplied functions (DeltaCallbackFunc, *WithScaleFunc hooks, InflateOption)", "thread safety inside the standard library (fmt, sort, slices, math)"},
 		assumptions: []string{"field-insensitive, context-insensitive points-to: may report spurious aliases, never misses one among modelled instructions; unmodelled instruction kinds abort the check"},
 		rules: []func(*Ctx){
 			ruleNoGlobalWrites("C18.globals"),
@@ -80,11 +81,11 @@ func init() {
 
 func init() {
 	register(&propDef{
-		id: "C07",
+		id:          "C07",
 		explanation: "Decides structural clauses of C07 for every D entry point (enumerated by type): (prec) the precision that reaches math.Pow(10,p) is the caller's value unmodified (a constant 2 only when the optional argument is absent) and a [-8,8] range check with the ErrPrecisionRange panic dominates it; (in) every PathD/PathsD/RectD input reaches 64-bit code only through ScalePath(s)DToPath(s)64/ScaleRectD with this call's scale, delta and arc tolerance are multiplied by it, the miter limit is not; (out) every PathD/PathsD result is ScalePath(s)64ToPath(s)D(x, 1/scale) with the same scale (or delegated to another D entry point); (round) the quantiser rounds coord*scale to an integer axis by axis and rectangles use the same quantiser; (same) after removing scaling and validation the wrapper calls exactly what its 64-bit sibling calls, with the same constants. Does NOT decide bit-exact equality of the decimal round trip or float overflow at the domain edge.",
-		notDecided: []string{"bit-exactness of ScalePath64ToPathD's decimal multiplication", "float overflow when |coord|*10^p leaves the integer domain", "behaviour of caller-supplied scale functions (*WithScaleFunc)"},
-		rules:      []func(*Ctx){
-			ruleDescaleExact("C07.descale", []string{"ScalePath64ToPathD"}),ruleScale("C07"), ruleQuantiserReturns("C07.round.returns")},
+		notDecided:  []string{"bit-exactness of ScalePath64ToPathD's decimal multiplication", "float overflow when |coord|*10^p leaves the integer domain", "behaviour of caller-supplied scale functions (*WithScaleFunc)"},
+		rules: []func(*Ctx){
+			ruleDescaleExact("C07.descale", []string{"ScalePath64ToPathD"}), ruleScale("C07"), ruleQuantiserReturns("C07.round.returns")},
 	})
 }
 
@@ -92,9 +93,9 @@ const whyWidth = "two squares scaled by 2^40 realise the operand widths: a wrapp
 
 func init() {
 	register(&propDef{
-		id: "C13",
+		id:          "C13",
 		explanation: "Decides the 'no intermediate exceeds 64 bits' clause of C13 and a translation clause (the orientation, collinearity, slope, normal and distance primitives read coordinates only through same-axis differences, so they are exactly translation invariant): with every coordinate bounded by 2^61 (MaxCoord) a magnitude-bits abstract interpretation of all int64 +,-,* in the package (interprocedural parameter/return widths) shows no result can need more than 63 bits (width), and no integer is taken through float64 and back when it may exceed 53 bits (roundtrip). Products are formed by the 128-bit helpers, whose limb arithmetic is decided by (limb): an abstract interpretation in the domain of exact polynomials shows, for every path and sign case, that mulInt64 returns a*b, int128.add/sub return x+y / x-y (modulo 2^128), toFloat64 returns lo + 2^64*hi, isZero tests both words, multiplyUInt64 returns a*b in two words and productsAreEqual compares both words of both products and nothing that may have wrapped. Does NOT decide the growth of float rounding error (the '2 units + 2^-40 extent' bound itself).",
-		notDecided: []string{"float rounding error growth in getDx/topX/getClosestPtOnSegment/offset constructors", "float64 rounding inside int128.toFloat64 (the real value is decided, the two roundings are not)", "translation invariance of float expressions"},
+		notDecided:  []string{"float rounding error growth in getDx/topX/getClosestPtOnSegment/offset constructors", "float64 rounding inside int128.toFloat64 (the real value is decided, the two roundings are not)", "translation invariance of float expressions"},
 		assumptions: []string{"a float the library converts to int64 has coordinate-difference magnitude (w+1 bits)", "`int` quantities (indices, counts, winding numbers) stay below 2^31"},
 		rules: []func(*Ctx){
 			ruleWidth("C13.width", 61, nil, 40, whyWidth),
@@ -110,9 +111,9 @@ var exactPredicates = []string{"CrossProduct", "isCollinear", "productsAreEqual"
 
 func init() {
 	register(&propDef{
-		id: "C14",
+		id:          "C14",
 		explanation: "Decides structural clauses of C14 at |coord| <= 2^29: (sign) triSign is the sign function on every cell {x<0, 0, 1, x>1}; (exact) no int64 +,-,* in the measure/predicate functions can exceed 63 bits and no float operation in them combines integer-derived operands beyond the 53-bit mantissa, so the sign/zero tests of the cross product are exact; (limb) the 128-bit helpers compute what they say on every path (polynomial identities over split words: mulInt64 = a*b, add/sub modulo 2^128, toFloat64 = lo + 2^64*hi with the negation carry, isZero, multiplyUInt64 = a*b, productsAreEqual compares both words of exact products); (bounds) the bounds accumulators start at the correct extreme, each bound is a min/max over its own axis and the four updates are independent; (pos) IsPositive64 is Area64 >= 0 and AreaPaths64 sums Area64. Also: (wrap) PointInPolygon's predecessor of vertex 0 is the last vertex (two sites); (area-sign) the shoelace convention of Area64/AreaD/areaOP/areaTriangle; (limb) isCollinear's shortcuts and word comparisons as polynomial facts. Does NOT decide the crossing-number walk of PointInPolygon or float64 rounding inside toFloat64.",
-		notDecided: []string{"PointInPolygon's crossing-number walk apart from the wrap-around predecessor (IsOn cases, the start index)", "the two float64 roundings inside int128.toFloat64", "Area64's final halving in float64"},
+		notDecided:  []string{"PointInPolygon's crossing-number walk apart from the wrap-around predecessor (IsOn cases, the start index)", "the two float64 roundings inside int128.toFloat64", "Area64's final halving in float64"},
 		rules: []func(*Ctx){
 			ruleTriSign("C14.sign"),
 			ruleWidth("C14.exact.int", 29, exactPredicates, 10, "at |coord| <= 2^29 every difference has 30 bits and every product 60: anything wider means a wrapped or truncated intermediate, i.e. a wrong sign for some triple"),
@@ -129,23 +130,23 @@ func init() {
 
 func init() {
 	register(&propDef{
-		id: "C02",
+		id:          "C02",
 		explanation: "Decides structural clauses of C02: (emit) every closed path reaches a solution only through cleanCollinear -> buildPath(pts, c.reverseSolution, false, &path) -> append guarded by buildPath()==true, in the flat and in the tree pipeline alike; (buildPath) buildPath refuses rings of fewer than 3 nodes before writing and never appends a point equal to the last appended one; (reverse) every buildPath call site passes the engine's reverseSolution option, and the offsetter derives it as ReverseSolution != pathsReversed. Also: (split.dedupe) doSplitOp creates a vertex for the intersection point only after comparing it with the two nodes it is linked between; (horz-roles) as in C01. Does NOT decide winding 0/1 of the whole solution, hole orientation or idempotence of re-union.",
-		notDecided: []string{"winding number 0/1 of the solution (geometry of the sweep)", "orientation of outer boundaries vs holes (addLocalMinPoly side choice)", "idempotence of re-uniting a solution"},
-		rules:      []func(*Ctx){ruleEmit("C02"), ruleBuildPath("C02.buildPath"), ruleCleanCollinear("C02.clean"), ruleGrowingList("C02.grow"), ruleSplitRelabel("C02.split"), ruleSplitDedupe("C02.split.dedupe"), ruleHorzJoinRoles("C02.horz-roles")},
+		notDecided:  []string{"winding number 0/1 of the solution (geometry of the sweep)", "orientation of outer boundaries vs holes (addLocalMinPoly side choice)", "idempotence of re-uniting a solution"},
+		rules:       []func(*Ctx){ruleEmit("C02"), ruleBuildPath("C02.buildPath"), ruleCleanCollinear("C02.clean"), ruleGrowingList("C02.grow"), ruleSplitRelabel("C02.split"), ruleSplitDedupe("C02.split.dedupe"), ruleHorzJoinRoles("C02.horz-roles")},
 	})
 	register(&propDef{
-		id: "C04",
+		id:          "C04",
 		explanation: "Decides structural clauses of C04: (once) AddChild is called only from recursiveCheckOwners, under the polypath==nil guard, and its node is stored in outrec.polypath, so each output record is inserted at most once; (same-pipeline) tree polygons are produced by the same cleanCollinear -> buildPath(pts, c.reverseSolution, false, &outrec.path) pipeline as the flat result and outrec.path has no other writer; (hole) IsHole() is true exactly on even non-zero levels and Level() counts .parent links; (owner) a ring split off by a horizontal join gets its owner by containment (inside the old ring: child; beside it: sibling; around it: rings swapped) and is recorded in the old ring's splits; (bounds) lazily computed OutRec.bounds are read only after checkBounds(record) succeeded; (grow) buildTree/buildPaths re-read len(outrecList) every iteration because clean-up appends records. Also: (owner/relabel) after a swap of point lists fixOutRecPts is called for both records; (scratch) the path variable handed to buildPath is a new variable for every result path (typestate: no use after escape). Does NOT decide containment/nesting correctness (path1InsidePath2, owner heuristics) or innermost-parent choice.",
-		notDecided: []string{"containment and nesting (path1InsidePath2, checkSplitOwner, setOwner heuristics)", "innermost-parent choice", "equality of the polygon SET with the flat result when polygons split", "moveSplits appends loop indices instead of split values (deviation, not demonstrable: 120 000 random tree executions identical to a repaired copy)"},
-		rules:      []func(*Ctx){ruleEmit("C04"), ruleIsHole("C04.hole"), ruleHorzJoinOwner("C04.owner"), ruleLazyBounds("C04.bounds"), ruleGrowingList("C04.grow"), ruleLocalMaxOwner("C04.owner.max"),
+		notDecided:  []string{"containment and nesting (path1InsidePath2, checkSplitOwner, setOwner heuristics)", "innermost-parent choice", "equality of the polygon SET with the flat result when polygons split", "moveSplits appends loop indices instead of split values (deviation, not demonstrable: 120 000 random tree executions identical to a repaired copy)"},
+		rules: []func(*Ctx){ruleEmit("C04"), ruleIsHole("C04.hole"), ruleHorzJoinOwner("C04.owner"), ruleLazyBounds("C04.bounds"), ruleGrowingList("C04.grow"), ruleLocalMaxOwner("C04.owner.max"),
 			ruleScratchLocal("C04.scratch", []string{"(clipperBase).buildTree", "(clipperBase).buildPaths"}, 2, "each result path is handed to the caller by reference; filling the same variable again overwrites (or prefixes) the pieces already handed over — visible only when a solution has two or more open pieces / polygons")},
 	})
 	register(&propDef{
-		id: "C12",
+		id:          "C12",
 		explanation: "Decides structural clauses of C12: (clear) in every exported Execute*, on every path, the first effect on each solution argument is a truncation / tree Clear, followed through the callees that receive it; (reset) every engine field written during an execution (computed from the code for clipperBase, ClipperOffset, RectClip64) has a re-initialisation proof: assigned by reset/prologue on every path, emptied by the epilogue that precedes every return, or a mode field assigned by every caller; the sorted-minima flag is cleared whenever the retained list grows; rectangle-clipper edge buckets are all emptied per path; (frozen-input) nothing reachable from an execution writes the retained Vertex/LocalMinima graph; (immutable) no library write can reach memory of a caller-supplied input slice. Identical state then implies identical results because the code is deterministic (C17). Also: (minima-flag) every addition to minimaList is dominated by isSortedMinimaList = false, in every declared method including those nothing in the package calls; (step) the round-join step fields are never assigned under a condition that reads one of them; (scratch) typestate of the offsetter's and the engine's scratch slices.",
-		notDecided: []string{"independence of the order in which paths were added (geometric tie-breaking)", "conditionally assigned round-join step fields are argued by hand (stepSin/stepCos/stepsPerRad)", "callbacks and scale functions supplied by the caller"},
-		rules:      []func(*Ctx){
+		notDecided:  []string{"independence of the order in which paths were added (geometric tie-breaking)", "conditionally assigned round-join step fields are argued by hand (stepSin/stepCos/stepsPerRad)", "callbacks and scale functions supplied by the caller"},
+		rules: []func(*Ctx){
 			ruleNoStaleGuard("C12.step", "ClipperOffset", []string{"stepSin", "stepCos", "stepsPerRad"}, 3, "the arc step depends on |delta|, the tolerance AND the sign of the group's delta; keeping it from the previous group or execution turns round joins the wrong way for an object used with deltas of both signs"),
 			ruleInvalidateFlag("C12.minima-flag", "clipperBase", "minimaList", "isSortedMinimaList", 2, "local minima are popped from the end of a list sorted by Y; a path added after an execution, through an entry that forgets the flag, is swept out of order: the second Execute differs from a fresh engine given the same paths"),
 			ruleScratchField("C12.scratch", "ClipperOffset", "pathOut", 4, "a scratch slice written again after it was handed to the solution carries one path's points into the next"),
@@ -156,9 +157,9 @@ func init() {
 
 func init() {
 	register(&propDef{
-		id: "C17",
+		id:          "C17",
 		explanation: "Decides structural clauses of C17: (det) sentence 1 completely, modulo the standard library: in the package and the reachable part of govalues/decimal there is no range over a map, goroutine, channel, select, time/rand/os/runtime/sync use, pointer-to-integer conversion or %p formatting, and no package-level variable is ever written, so equal inputs give bit-identical outputs; (cmp) the comparison closures handed to sort.Slice are strict weak orders on every ordering of their keys; (mirror) in every `switch fillRule` the Negative arm is the Positive arm with all winding operands negated, and the contribution tables are sign-mirrors — the structural form of 'all paths reversed with Positive and Negative exchanged'; (sym) the contribution table ignores the polytype for Union/Intersection/Xor (subject/clip exchange); (dup) while a path becomes the vertex ring an input point is skipped exactly when it equals the previously kept point, so repeating a vertex changes nothing and nothing else is dropped. Does NOT decide permutation/rotation invariance of the region or lattice symmetries of the sweep.",
-		notDecided: []string{"invariance under path permutation, start-vertex rotation, vertex duplication (tie-breaking in isValidAelOrder)", "path reversal under EvenOdd", "the 8 lattice symmetries (the sweep is not symmetric in Y by construction)", "horzSegSort is not antisymmetric (deviation, only region-equivalent output differences could be produced)"},
+		notDecided:  []string{"invariance under path permutation, start-vertex rotation, vertex duplication (tie-breaking in isValidAelOrder)", "path reversal under EvenOdd", "the 8 lattice symmetries (the sweep is not symmetric in Y by construction)", "horzSegSort is not antisymmetric (deviation, only region-equivalent output differences could be produced)"},
 		rules: []func(*Ctx){
 			ruleForbidden("C17.det", true),
 			ruleNoGlobalWrites("C17.det.globals"),
@@ -175,9 +176,9 @@ func init() {
 
 func init() {
 	register(&propDef{
-		id: "C05",
+		id:          "C05",
 		explanation: "Decides structural clauses of C05: (join) offsetPoint's dispatch over JoinType builds exactly the constructor set of the property's table (Miter: miter or square by the limit test; Square: square; Bevel: bevel; Round: arc; the near-straight shortcut uses doMiter only for non-round joins; the concave arm emits perp(prev), vertex, perp(curr)); (sign) groupDelta is -delta / +delta / |delta| by (end type, pathsReversed), arcs turn with the sign of groupDelta, NewGroup strips duplicates with the right closed flag and takes the orientation from the path owning the lowest vertex; (union) the clean-up is Execute(Union, reversed ? Negative : Positive) with reverseSolution = ReverseSolution != reversed; (small) |delta| < 0.5 returns the stripped input before any constructor; (xy) every point constructed in offset.go pairs X with X and Y with Y (rotations exempted by name). Does NOT decide any distance statement (band containment, k*delta bound, arc tolerance), over-shrinking or hole growth.",
-		notDecided: []string{"containment of the (delta - tol) band and the k*delta outer bound", "arc tolerance of round joins", "over-shrinking to empty, hole growth", "the numeric thresholds of the dispatch (0.999, mitLimSqr)"},
+		notDecided:  []string{"containment of the (delta - tol) band and the k*delta outer bound", "arc tolerance of round joins", "over-shrinking to empty, hole growth", "the numeric thresholds of the dispatch (0.999, mitLimSqr)"},
 		rules: []func(*Ctx){
 			ruleArcSignFollowsGroup("C05.arc-sign"),
 			ruleOffsetAlwaysEmits("C05.emit-all", []string{"(ClipperOffset).offsetPolygon", "(ClipperOffset).offsetOpenJoined", "(ClipperOffset).offsetOpenPath"}),
@@ -186,18 +187,18 @@ func init() {
 		},
 	})
 	register(&propDef{
-		id: "C08",
+		id:          "C08",
 		explanation: "Decides structural clauses of C08: (sign) the sum adds and the difference subtracts the pattern point from the path point on both axes; (entry) the four exported functions pass isSum=true/false and the caller's isClosed and finish with UnionPaths64(quads, NonZero); (norm) every quad enters the result in positive orientation (as is under IsPositive64, reversed otherwise); (closed) closed paths use (delta, first predecessor) = (0, len-1), open paths (1, 0); (all) no loop iteration skips its vertex or segment; (xy) axis pairing of constructed points. Does NOT decide that the quads cover exactly the swept region, nor commutativity.",
-		notDecided: []string{"that the union of the quads equals the swept region", "sum(A,B) = sum(B,A)", "canonical-ness of the result (C02)"},
-		rules:      []func(*Ctx){ruleMinkowski("C08"), ruleXY("C08.xy", []string{"minkowski.go"}, 2)},
+		notDecided:  []string{"that the union of the quads equals the swept region", "sum(A,B) = sum(B,A)", "canonical-ness of the result (C02)"},
+		rules:       []func(*Ctx){ruleMinkowski("C08"), ruleXY("C08.xy", []string{"minkowski.go"}, 2)},
 	})
 }
 
 func init() {
 	register(&propDef{
-		id: "C15",
+		id:          "C15",
 		explanation: "Decides structural clauses of C15: (subseq) every vertex appended to the result is an element of the input path; (only) in the main scan a vertex is dropped exactly when isCollinear(last kept vertex, path[i], path[i+1]) holds; (wrap) each wrap-around scan of a closed path compares the moving vertex with a FIXED anchor on the other side of the start index; (open) an open path's last point is appended unconditionally; (pred) the collinearity predicate is exact: triSign is the sign function per cell and the products are 128-bit with no float detour; (limb) multiplyUInt64 returns a*b in two words (every partial product and carry used once at its weight, no intermediate overflow — a polynomial identity over split words) and productsAreEqual answers true only after comparing both words of both products, false only when one of those comparisons fails, and never compares a 64-bit product that may have wrapped. Does NOT decide 'no three consecutive collinear vertices remain', idempotence or the wrap-around bookkeeping as a whole.",
-		notDecided: []string{"no three cyclically consecutive result vertices are collinear", "idempotence of trimming", "area and winding preservation (follow from the clauses above only if the wrap-around bookkeeping is right)", "result empty when fewer than 3 vertices remain"},
+		notDecided:  []string{"no three cyclically consecutive result vertices are collinear", "idempotence of trimming", "area and winding preservation (follow from the clauses above only if the wrap-around bookkeeping is right)", "result empty when fewer than 3 vertices remain"},
 		rules: []func(*Ctx){
 			ruleTrimCollinear("C15"), ruleTriSign("C15.pred"), ruleLimb("C15.limb", "isCollinear", "multiplyUInt64", "productsAreEqual"),
 			ruleExactFloat("C15.pred.float", 29, []string{"isCollinear", "productsAreEqual"}, "collinearity must be decided on the exact integer cross product"),
@@ -205,9 +206,9 @@ func init() {
 		},
 	})
 	register(&propDef{
-		id: "C16",
+		id:          "C16",
 		explanation: "Decides structural clauses of C16: (subseq) the result is one in-order pass appending path[i] exactly when flags[i] is false, and paths with fewer than 4 points are returned unchanged; (ends) for open paths the two end cells start at MaxFloat64 and no later store refreshes a cell without idx != 0 && idx != high, for closed paths both neighbours are refreshed after every removal; (sibling) SimplifyPath64/SimplifyPaths64 equal SimplifyPathD/SimplifyPathsD modulo types and helper names; (diff) the distance reads coordinates only through same-axis differences, hence is translation invariant; (width) at |coord| <= 2^29 the integer distance has no wrapped int64 intermediate and its squared cross product is exact in sign and zero-ness (epsilon 0 removes only exactly collinear vertices). Also: (ring) getNext/getPrior return an index whose flag was the last one tested and found clear on every explored return path. Does NOT decide the greedy removal order, 'no retained vertex within epsilon' or scale-by-2^k invariance of float rounding.",
-		notDecided: []string{"the greedy order of removals (beyond: getNext/getPrior return a still-present index)", "on return no retained vertex is within epsilon of its neighbours' line", "invariance under scaling by a power of two (float rounding)"},
+		notDecided:  []string{"the greedy order of removals (beyond: getNext/getPrior return a still-present index)", "on return no retained vertex is within epsilon of its neighbours' line", "invariance under scaling by a power of two (float rounding)"},
 		rules: []func(*Ctx){
 			ruleSimplify("C16"),
 			ruleUnflaggedReturn("C16.ring", []string{"getNext", "getPrior"}),
@@ -223,9 +224,9 @@ func init() {
 
 func init() {
 	register(&propDef{
-		id: "C03",
+		id:          "C03",
 		explanation: "Decides structural clauses of C03: (panics) the inventory of explicit panics is exactly the reviewed one (the documented precision-range panic, plus four index-error panics whose structural premises — index shape and guards — are re-checked); (make) every make() length/capacity is provably non-negative by interval analysis with dominating-branch refinement; (div) every integer division/remainder has a non-zero constant divisor; (flag) c.succeeded is assigned on every path through executeInternal and read only afterwards; (index) constant indices into slice parameters are guarded by the function or by every caller, and in the scan functions the number of variable-index reads without a dominating `index < len` guard on the same index value does not grow beyond the reviewed baseline; (ring) every ring walk exits on cursor==start (no one-node walks, no walks that cannot terminate on a well-formed ring). Does NOT decide nil-dereference freedom of the linked structures, variable-index safety or termination of invariant-dependent scans.",
-		notDecided: []string{"nil-dereference freedom of AEL/SEL/OutPt links", "variable-index safety in general (only reads that were guarded on the confirmed tree are held to stay guarded: C03.index.var; 132 of 201 variable-index reads of slice parameters have no such guard and are not judged)", "termination of fixSelfIntersects / doMaxima / processIntersectList scans", "reachability of succeeded=false in addLocalMaxPoly", "memory/time blow-up for absurd radii (Ellipse step count)"},
+		notDecided:  []string{"nil-dereference freedom of AEL/SEL/OutPt links", "variable-index safety in general (only reads that were guarded on the confirmed tree are held to stay guarded: C03.index.var; 132 of 201 variable-index reads of slice parameters have no such guard and are not judged)", "termination of fixSelfIntersects / doMaxima / processIntersectList scans", "reachability of succeeded=false in addLocalMaxPoly", "memory/time blow-up for absurd radii (Ellipse step count)"},
 		rules: []func(*Ctx){
 			ruleVarIndex("C03.index.var", map[string]int{
 				// per (function, slice-parameter position): how many variable-index reads are NOT dominated by `index < len`
@@ -241,9 +242,9 @@ func init() {
 		},
 	})
 	register(&propDef{
-		id: "C06",
+		id:          "C06",
 		explanation: "Decides structural clauses of C06: (mirror) in getNextLocation, getIntersection and getLocation the Right arm is the left/right mirror image of the Left arm, Bottom of Top, and Top the diagonal image of Left — the clipper is equivariant under the rectangle's symmetries; (corner-live) no addCorner/addCornerLocation call is constant-dead; (fast) pathBounds is the bounds of the current path, disjoint paths are skipped and contained paths are returned as the input path itself; (bounds) the bounds accumulators start at the right extremes with independent per-axis updates. Also: (wrap) the predecessor of vertex 0 is the last vertex; (retire) tidyEdgePair reads the index of the slot it empties before relabelling the ring; (lag) checkEdges seeds its lagging edge set with the cyclic predecessor. Does NOT decide the crossing-history logic of executeInternal nor checkEdges/tidyEdgePair.",
-		notDecided: []string{"crossing-history logic of executeInternal (firstCross/startLocs bookkeeping)", "checkEdges / tidyEdgePair re-joining (tidyEdgePair tests horizontal overlap on vertical edges: only region-equivalent differences could be produced)", "1-unit rounding of intersection points"},
+		notDecided:  []string{"crossing-history logic of executeInternal (firstCross/startLocs bookkeeping)", "checkEdges / tidyEdgePair re-joining (tidyEdgePair tests horizontal overlap on vertical edges: only region-equivalent differences could be produced)", "1-unit rounding of intersection points"},
 		rules: []func(*Ctx){
 			ruleRectMirror("C06.mirror"),
 			ruleSegIntersectMirror("C06.mirror.seg"),
